@@ -1,0 +1,21 @@
+//go:build verif
+
+package retention
+
+// C14 (victim-selection guard of the time-based retention pass): a segment is
+// put on the deletion list only if its newest event is not newer than the
+// retention horizon, and only entries of the requesting organisation are
+// considered.  Checked by /verif/bin/govc.  Comment-only file.
+
+//@ func DoRetentionBasedDeletion
+//@   props C14
+//@   site call append #1:
+//@     assert [metrics-tenant] allMetricMetas[i].OrgId == orgid
+//@   site call append #2:
+//@     assert [segments-tenant] allSegMetas[i].OrgId == orgid
+//@   site mapupdate metricSegmentsToDelete[entry.MSegmentDir] #1:
+//@     assert [metrics-expired] uint64(entry.LatestEpochSec) * 1000 <= deleteBefore
+//@     assert [metrics-no-overflow] uint64(entry.LatestEpochSec) <= 18446744073709551
+//@   site mapupdate segmentsToDelete[entry.SegmentKey] #1:
+//@     assert [segment-expired] entry.LatestEpochMS <= deleteBefore
+//@ end
